@@ -32,6 +32,8 @@ type Facts struct {
 	// writes to receiver / package-level variables inside process/validate/Parse/Validate
 	Writes        []string
 	ClosureWrites []string
+	// HelperOperandWrites: field / element writes through the receiver or a parameter inside struct_helpers.go
+	HelperOperandWrites []string
 	// ExecCtxFormatters: the distinct second arguments of the NewExecCtx calls (the formatter a top-level
 	// entry point starts from); ExecCtxSites: how many calls there are
 	ExecCtxFormatters []string
@@ -463,6 +465,97 @@ func closureWrites(fset *token.FileSet, files map[string]*ast.File) []string {
 
 // receiverWrites lists assignments / inc-dec whose target is rooted at the method receiver or at a
 // package-level variable, inside the named methods of every schema file.
+// helperOperandWrites: in the schema-deriving helpers (every method of struct_helpers.go: Pick, Omit, Extend,
+// Merge and what they are made of) an assignment / inc-dec whose target is a FIELD or ELEMENT reached from the
+// receiver, from a parameter or from a range variable over a parameter — the helpers build new schemas and only
+// read their operands.
+func helperOperandWrites(fset *token.FileSet, f *ast.File) []string {
+	var out []string
+	if f == nil {
+		return []string{"struct_helpers.go: missing"}
+	}
+	rootOf := func(e ast.Expr) (string, bool) {
+		deref := false
+		for {
+			switch x := e.(type) {
+			case *ast.SelectorExpr:
+				e, deref = x.X, true
+			case *ast.IndexExpr:
+				e, deref = x.X, true
+			case *ast.StarExpr:
+				e, deref = x.X, true
+			case *ast.ParenExpr:
+				e = x.X
+			case *ast.Ident:
+				return x.Name, deref
+			default:
+				return "", false
+			}
+		}
+	}
+	for _, d := range f.Decls {
+		fd, ok := d.(*ast.FuncDecl)
+		if !ok || fd.Body == nil {
+			continue
+		}
+		operands := map[string]bool{}
+		if fd.Recv != nil {
+			for _, fl := range fd.Recv.List {
+				for _, n := range fl.Names {
+					operands[n.Name] = true
+				}
+			}
+		}
+		for _, fl := range fd.Type.Params.List {
+			for _, n := range fl.Names {
+				operands[n.Name] = true
+			}
+		}
+		// range variables over an operand, and plain aliases of one (`s := other`)
+		for changed := true; changed; {
+			changed = false
+			ast.Inspect(fd.Body, func(n ast.Node) bool {
+				switch x := n.(type) {
+				case *ast.RangeStmt:
+					if r, _ := rootOf(x.X); operands[r] {
+						if id, ok := x.Value.(*ast.Ident); ok && !operands[id.Name] && id.Name != "_" {
+							operands[id.Name], changed = true, true
+						}
+					}
+				case *ast.AssignStmt:
+					if x.Tok == token.DEFINE && len(x.Lhs) == len(x.Rhs) {
+						for i, l := range x.Lhs {
+							id, ok := l.(*ast.Ident)
+							if rid, ok2 := x.Rhs[i].(*ast.Ident); ok && ok2 && operands[rid.Name] && !operands[id.Name] {
+								operands[id.Name], changed = true, true
+							}
+						}
+					}
+				}
+				return true
+			})
+		}
+		note := func(e ast.Expr) {
+			if r, deref := rootOf(e); deref && operands[r] {
+				out = append(out, fd.Name.Name+": "+exprString(e))
+			}
+		}
+		ast.Inspect(fd.Body, func(n ast.Node) bool {
+			switch x := n.(type) {
+			case *ast.AssignStmt:
+				for _, l := range x.Lhs {
+					note(l)
+				}
+			case *ast.IncDecStmt:
+				note(x.X)
+			}
+			return true
+		})
+	}
+	sort.Strings(out)
+	return out
+}
+
 func receiverWrites(fset *token.FileSet, files map[string]*ast.File) []string {
 	var out []string
 	methods := map[string]bool{"process": true, "validate": true, "Parse": true, "Validate": true}
@@ -711,6 +804,11 @@ func extractFacts(repo string) (*Facts, error) {
 		schemaFiles[n] = files[n]
 	}
 	fc.Writes = receiverWrites(fset, schemaFiles)
+	if hf, err := parseFile(fset, filepath.Join(repo, "struct_helpers.go")); err == nil {
+		fc.HelperOperandWrites = helperOperandWrites(fset, hf)
+	} else {
+		fc.HelperOperandWrites = []string{"struct_helpers.go: " + err.Error()}
+	}
 	// every non-test source file of the library packages whose closures run during a call
 	closureFiles := map[string]*ast.File{}
 	for _, dir := range []string{"", "internals", "conf", "i18n", "zhttp", "zenv", "parsers/zjson"} {
@@ -1207,6 +1305,7 @@ func (f *Facts) lean() string {
 	}
 	s.WriteString("]\n\n")
 	fmt.Fprintf(&s, "/-- the formatter every top-level entry point hands its execution context: the distinct second arguments of the %d NewExecCtx(errs, X) calls -/\ndef execCtxFormatters : List String := %s\n\n", f.ExecCtxSites, leanStrList(f.ExecCtxFormatters))
+	fmt.Fprintf(&s, "/-- Pick / Omit / Extend / Merge (every function of struct_helpers.go): assignments to a field or element reached from the receiver, a parameter or a range variable over one -/\ndef helperOperandWrites : List String := %s\n\n", leanStrList(f.HelperOperandWrites))
 	fmt.Fprintf(&s, "/-- writes inside function literals (test / transform / option / coercer closures) to captured or package-level variables -/\ndef closureWrites : List String := %s\n\n", leanStrList(f.ClosureWrites))
 	fmt.Fprintf(&s, "/-- writes rooted at a schema receiver or package variable — assignments, inc/dec and in-place mutator calls (Store, Swap, LoadOrStore, Do, ...) on receiver fields — inside process/validate/Parse/Validate and every function of the schema files reachable from them -/\ndef schemaWrites : List String := %s\n\n", leanStrList(f.Writes))
 	srcOf := func(p string) string {
@@ -1269,7 +1368,7 @@ var probeDoc = map[string][2]string{
 	"EmbeddedNilGuard":         {"C06", "Struct{a: String()}.Parse(struct{ *Embedded; B int }{}) (field A promoted through a nil embedded pointer): must not panic"},
 	"NilBodyGuard":             {"C06 C15", "Struct{a: String()}.Parse(zjson.Decode(nil)): must not panic"},
 	"SliceDefaultDeep":         {"C19 C17 C04 C03", "(also: a schema WITHOUT PostTransforms validated on an empty value must hold a value deeply equal to its Default, for defaults with pointers, structs, maps and interface fields) Slice(Slice(String())).Default([[a b]]).PostTransform(value[0][0] = MUTATED) validated twice on empty values: the second use must still see the default [[a b]]; likewise defaults of type []*int, []Stop{Geo{Tags []string}} (a struct holding a struct that holds a slice), []PStop{Geo *Geo}, []Cell{P *int}, [][]*int, an empty inner slice with spare capacity that the PostTransform appends to, and structs with map fields whose values are slices / pointers — after two uses with an in-place write through the validated value the default as the caller wrote it must be unchanged"},
-	"CloneCopies":              {"C16", "base with three tests; A := base.Pick(a).Test(tA); B := base.Omit(a).Test(tB); C := base.Extend({}).Test(tC): running A must run tA and neither tB nor tC (same with PostTransforms)"},
+	"CloneCopies":              {"C16 C01", "base with three tests; A := base.Pick(a).Test(tA); B := base.Omit(a).Test(tB); C := base.Extend({}).Test(tC): running A must run tA and neither tB nor tC (same with PostTransforms)"},
 }
 
 func (f *Facts) json() []byte {
